@@ -103,7 +103,7 @@ class C08(Prop):
     pkg = "hprom"
     binname = "c08"
     quick_cases = 3000
-    thorough_cases = 40000
+    thorough_cases = 20000
     shard = 100
     rule = ("75% direct cases: the four sanitisers, write_help_line, write_type_line and key_to_parts+write_metric_line on strings over "
             "an adversarial alphabet (quote, backslash, LF, CR, ',', '=', '{', '}', '#', ':', space, NUL, TAB, 'n', digits first, U+0080, "
